@@ -631,6 +631,13 @@ def r6_import_by_path(ctx):
         inside = any(fr.kind == 'with' and fr.stmt is w.stmt for fr in n.frames)
         org = _origins(rd, n, cc.args[0]) if cc.args else []
         okn = bool(org) and all(_is_call_to(o, 'modpath_to_modname') and o.args and is_name(o.args[0], path) for o in org)
+        # ... derived with the defaults: hide_main / hide_init / relativeto change WHICH module name comes out (pkg instead of pkg.__main__)
+        extra = [ctx.src(k) if not isinstance(k, ast.keyword) else '%s=%s' % (k.arg, ctx.src(k.value)) for o in org if _is_call_to(o, 'modpath_to_modname')
+                 for k in list(o.args[1:]) + [k2 for k2 in o.keywords if not (k2.arg == 'check')]]
+        if okn and extra:
+            rep.ob('C17.R6', ctx.loc(f, cc), 'modpath_to_modname(<path>, %s)' % ', '.join(extra), False,
+                   'the module name to import is derived with %s: for a `__main__.py` / `__init__.py` (or with another root) that is the name of a DIFFERENT module than the file given, '
+                   'so import_module_from_path returns the package where the file\'s own module was asked for' % ', '.join(extra), anchor=f.qualname)
         rep.ob('C17.R6', ctx.loc(f, cc), ctx.src(cc), inside and okn,
                'imports modpath_to_modname(<the given path>) while the directory is on sys.path' if inside and okn else
                ('the import runs outside the sys.path context' if not inside else 'the imported name is not the one derived from the given path'), anchor=CIMP)
@@ -754,6 +761,7 @@ from ..selftest import fire, silent      # noqa: E402
 
 UP = 'xdoctest/utils/util_import.py'
 VARIANTS = [
+    fire('import-name-derived-with-hide-main', 'C17.R6', (UP, "def _custom_import_modpath(modpath, index=-1):\n    dpath, rel_modpath = split_modpath(modpath)\n    modname = modpath_to_modname(modpath)\n", "def _custom_import_modpath(modpath, index=-1):\n    dpath, rel_modpath = split_modpath(modpath)\n    modname = modpath_to_modname(modpath, hide_main=True)\n")),
     fire('package-chain-checked-one-level-only', 'C17.R1', (UP, "        while subdir and subdir != base:\n", "        if subdir and subdir != base:\n")),
     fire('plain-directory-shadows-module-file', 'C17.R1b', (UP, "            if isfile(join(modpath, '__init__.py')):\n                if _isvalid(modpath, dpath):\n                    return modpath\n", "            if not isfile(join(modpath, '__init__.py')):\n                return None\n            if _isvalid(modpath, dpath):\n                return modpath\n")),
     fire('split-follows-symlinks', 'C17.R9', (UP, "    modpath_ = abspath(expanduser(modpath))\n    if check:", "    modpath_ = realpath(expanduser(modpath))\n    if check:")),
